@@ -38,10 +38,11 @@ VARIABLES
   polls,      \* polls of the caller in this call (upper bound of any waiting time)
   availSeen,  \* the next result was already available at the previous Next/Poll of the consumer's wait
   quiet,      \* polls since the last completion callback / result (lower bound of the current wait)
+  sinceY,     \* polls since the last result was handed to the consumer (upper bound of the current wait for the next one)
   d9          \* look-ahead excess happened during the initial dispatch loop (finding D9)
 
 avars == <<call, conf, phase, started, pulled, pulling, iterRaised, submitted, batches, preB, doneB,
-           startedT, endedT, okT, failedT, out, stopped, closing, slices, inSlice, want, polls, availSeen, quiet, d9>>
+           startedT, endedT, okT, failedT, out, stopped, closing, slices, inSlice, want, polls, availSeen, quiet, d9, sinceY>>
 
 NoConf == [n |-> 0, mode |-> "list", nj |-> 1, maxb |-> 1, pre |-> 0, bound |-> 0, slack |-> 1, ticks |-> -1,
            serial |-> TRUE, legacy |-> FALSE]
@@ -51,7 +52,7 @@ AInit ==
   /\ iterRaised = FALSE /\ submitted = {} /\ batches = {} /\ preB = 0 /\ doneB = <<>>
   /\ startedT = {} /\ endedT = {} /\ okT = {} /\ failedT = {} /\ out = <<>>
   /\ stopped = FALSE /\ closing = FALSE /\ slices = 0 /\ inSlice = FALSE /\ want = FALSE
-  /\ polls = 0 /\ quiet = 0 /\ availSeen = FALSE /\ d9 = FALSE
+  /\ polls = 0 /\ quiet = 0 /\ availSeen = FALSE /\ d9 = FALSE /\ sinceY = 0
 
 Range(lo, hi) == lo..(hi - 1)
 Ordered == conf.mode # "unord"
@@ -168,7 +169,8 @@ Why(e) ==
               (IF e.i \notin failedT THEN "C04.WrongException" ELSE "ok")
          ELSE IF e.kind = "raised_iter" THEN (IF ~iterRaised THEN "C04.WrongException" ELSE "ok")
          ELSE IF e.kind = "timeout" THEN
-              (IF conf.ticks < 0 \/ polls < conf.ticks THEN "C04.SpuriousTimeout" ELSE "ok")
+              \* (legitimate only if the caller has been waiting for its next result for at least the timeout)
+              (IF conf.ticks < 0 \/ sinceY < conf.ticks THEN "C04.SpuriousTimeout" ELSE "ok")
          ELSE IF e.kind = "closed" THEN (IF ~closing THEN "harness.Closed" ELSE "ok")
          ELSE IF e.kind = "hang" THEN "C04.NoTermination"
          ELSE "C04.UnexpectedOutcome"
@@ -189,7 +191,7 @@ Apply(e) ==
          /\ iterRaised' = FALSE /\ submitted' = {} /\ batches' = {} /\ preB' = 0 /\ doneB' = <<>>
          /\ startedT' = {} /\ endedT' = {} /\ okT' = {} /\ failedT' = {} /\ out' = <<>>
          /\ stopped' = FALSE /\ closing' = FALSE /\ slices' = 0 /\ inSlice' = FALSE
-         /\ want' = FALSE /\ polls' = 0 /\ quiet' = 0 /\ availSeen' = FALSE /\ d9' = FALSE
+         /\ want' = FALSE /\ polls' = 0 /\ quiet' = 0 /\ availSeen' = FALSE /\ d9' = FALSE /\ sinceY' = 0
     [] e.ev \in {"Rejected", "Overlap"} -> UNCHANGED avars
     [] e.ev = "PullIn" ->
          /\ pulling' = e.th
@@ -197,64 +199,64 @@ Apply(e) ==
          /\ d9' = (d9 \/ (~started /\ conf.pre # 0 /\ pulled - Cardinality(endedT) >= conf.bound))
          /\ inSlice' = TRUE
          /\ UNCHANGED <<call, conf, phase, started, pulled, iterRaised, submitted, batches, preB, doneB,
-                        startedT, endedT, okT, failedT, out, stopped, closing, want, polls, quiet, availSeen>>
+                        startedT, endedT, okT, failedT, out, stopped, closing, want, polls, quiet, availSeen, sinceY>>
     [] e.ev = "Pull" ->
          /\ pulled' = pulled + 1 /\ pulling' = 0 /\ inSlice' = TRUE
          /\ UNCHANGED <<call, conf, phase, started, iterRaised, submitted, batches, preB, doneB, startedT,
-                        endedT, okT, failedT, out, stopped, closing, slices, want, polls, quiet, availSeen, d9>>
+                        endedT, okT, failedT, out, stopped, closing, slices, want, polls, quiet, availSeen, d9, sinceY>>
     [] e.ev = "PullStop" ->
          /\ pulling' = 0 /\ inSlice' = TRUE
          /\ UNCHANGED <<call, conf, phase, started, pulled, iterRaised, submitted, batches, preB, doneB,
-                        startedT, endedT, okT, failedT, out, stopped, closing, slices, want, polls, quiet, availSeen, d9>>
+                        startedT, endedT, okT, failedT, out, stopped, closing, slices, want, polls, quiet, availSeen, d9, sinceY>>
     [] e.ev = "PullRaise" ->
          /\ pulling' = 0 /\ iterRaised' = TRUE /\ inSlice' = FALSE
          /\ UNCHANGED <<call, conf, phase, started, pulled, submitted, batches, preB, doneB, startedT,
-                        endedT, okT, failedT, out, stopped, closing, slices, want, polls, quiet, availSeen, d9>>
+                        endedT, okT, failedT, out, stopped, closing, slices, want, polls, quiet, availSeen, d9, sinceY>>
     [] e.ev = "Submit" ->
          /\ submitted' = submitted \cup Range(e.lo, e.hi)
          /\ batches' = batches \cup {<<e.lo, e.hi>>}
          /\ preB' = IF started THEN preB ELSE preB + 1
          /\ inSlice' = FALSE
          /\ UNCHANGED <<call, conf, phase, started, pulled, pulling, iterRaised, doneB, startedT, endedT,
-                        okT, failedT, out, stopped, closing, slices, want, polls, quiet, availSeen, d9>>
+                        okT, failedT, out, stopped, closing, slices, want, polls, quiet, availSeen, d9, sinceY>>
     [] e.ev = "TStart" ->
          /\ startedT' = IF e.c = call THEN startedT \cup {e.i} ELSE startedT
          /\ UNCHANGED <<call, conf, phase, started, pulled, pulling, iterRaised, submitted, batches, preB,
-                        doneB, endedT, okT, failedT, out, stopped, closing, slices, inSlice, want, polls, quiet, availSeen, d9>>
+                        doneB, endedT, okT, failedT, out, stopped, closing, slices, inSlice, want, polls, quiet, availSeen, d9, sinceY>>
     [] e.ev = "TEnd" ->
          /\ endedT' = IF e.c = call THEN endedT \cup {e.i} ELSE endedT
          /\ okT' = IF e.c = call /\ e.ok THEN okT \cup {e.i} ELSE okT
          /\ failedT' = IF e.c = call /\ ~e.ok THEN failedT \cup {e.i} ELSE failedT
          /\ UNCHANGED <<call, conf, phase, started, pulled, pulling, iterRaised, submitted, batches, preB,
-                        doneB, startedT, out, stopped, closing, slices, inSlice, want, polls, quiet, availSeen, d9>>
+                        doneB, startedT, out, stopped, closing, slices, inSlice, want, polls, quiet, availSeen, d9, sinceY>>
     [] e.ev = "CbEnd" ->
          /\ doneB' = IF Live(e.c) /\ e.ok /\ ~stopped THEN Append(doneB, <<e.lo, e.hi>>) ELSE doneB
          /\ stopped' = (stopped \/ (Live(e.c) /\ ~e.ok /\ ~conf.legacy))
          /\ inSlice' = FALSE /\ quiet' = 0
          /\ UNCHANGED <<call, conf, phase, started, pulled, pulling, iterRaised, submitted, batches, preB,
-                        startedT, endedT, okT, failedT, out, closing, slices, want, polls, availSeen, d9>>
+                        startedT, endedT, okT, failedT, out, closing, slices, want, polls, availSeen, d9, sinceY>>
     [] e.ev = "Poll" ->
-         /\ started' = TRUE /\ polls' = polls + 1 /\ quiet' = quiet + 1 /\ inSlice' = FALSE
+         /\ started' = TRUE /\ polls' = polls + 1 /\ quiet' = quiet + 1 /\ inSlice' = FALSE /\ sinceY' = sinceY + 1
          /\ availSeen' = (want /\ HeadAvailable)
          /\ UNCHANGED <<call, conf, phase, pulled, pulling, iterRaised, submitted, batches, preB, doneB,
                         startedT, endedT, okT, failedT, out, stopped, closing, slices, want, d9>>
     [] e.ev = "Next" ->
          /\ want' = TRUE /\ started' = TRUE /\ inSlice' = FALSE /\ availSeen' = HeadAvailable
          /\ UNCHANGED <<call, conf, phase, pulled, pulling, iterRaised, submitted, batches, preB, doneB,
-                        startedT, endedT, okT, failedT, out, stopped, closing, slices, polls, quiet, d9>>
+                        startedT, endedT, okT, failedT, out, stopped, closing, slices, polls, quiet, d9, sinceY>>
     [] e.ev = "Yield" ->
-         /\ out' = Append(out, e.i) /\ want' = FALSE /\ quiet' = 0 /\ started' = TRUE /\ inSlice' = FALSE
+         /\ out' = Append(out, e.i) /\ want' = FALSE /\ quiet' = 0 /\ started' = TRUE /\ inSlice' = FALSE /\ sinceY' = 0
          /\ availSeen' = FALSE
          /\ UNCHANGED <<call, conf, phase, pulled, pulling, iterRaised, submitted, batches, preB, doneB,
                         startedT, endedT, okT, failedT, stopped, closing, slices, polls, d9>>
     [] e.ev = "Close" ->
          /\ closing' = TRUE /\ stopped' = TRUE /\ started' = TRUE /\ inSlice' = FALSE
          /\ UNCHANGED <<call, conf, phase, pulled, pulling, iterRaised, submitted, batches, preB, doneB,
-                        startedT, endedT, okT, failedT, out, slices, want, polls, quiet, availSeen, d9>>
+                        startedT, endedT, okT, failedT, out, slices, want, polls, quiet, availSeen, d9, sinceY>>
     [] e.ev = "End" ->
          /\ phase' = "ended" /\ want' = FALSE /\ inSlice' = FALSE /\ pulling' = 0
          /\ UNCHANGED <<call, conf, started, pulled, iterRaised, submitted, batches, preB, doneB,
-                        startedT, endedT, okT, failedT, out, stopped, closing, slices, polls, quiet, availSeen, d9>>
+                        startedT, endedT, okT, failedT, out, stopped, closing, slices, polls, quiet, availSeen, d9, sinceY>>
 
 Step(e) == Why(e) = "ok" /\ Apply(e)
 =============================================================================
